@@ -87,6 +87,11 @@ of_status_t	of_2d_parity_release_codec_instance (of_2d_parity_cb_t*	ofcb)
 #ifdef OF_USE_DECODER
 	if(ofcb->codec_type & OF_DECODER)
 	{
+		if (ofcb->tmp_tab_symbols != NULL)
+		{
+			of_free (ofcb->tmp_tab_symbols);
+			ofcb->tmp_tab_symbols = NULL;
+		}
 		if (ofcb->tab_nb_enc_symbols_per_equ != NULL)
 		{
 			of_free (ofcb->tab_nb_enc_symbols_per_equ);
@@ -241,6 +246,9 @@ of_status_t	of_2d_parity_set_fec_parameters (of_2d_parity_cb_t*	ofcb,
 			{
 				ofcb->tab_nb_equ_for_repair[seq - ofcb->nb_source_symbols]++;
 			}
+		}
+		if ((ofcb->tmp_tab_symbols = (void**) of_malloc (sizeof(void*) * ofcb->nb_total_symbols)) == NULL) {
+			goto no_mem;
 		}
 	}
 #endif //OF_USE_DECODER
